@@ -39,7 +39,8 @@ impl Prop for C06 {
 
     fn assumptions(&self) -> Vec<String> {
         vec![
-            "the polling-reader race is sampled (about one case in eight: 40..300 reloads against two polling watchers and two guard-holding readers, then 200..1500 rewrites against 2..3 concurrent pollers of reloaded_global(): at most one true per rewrite in total; then the late-registration scenario: an asset loaded for the first time after the notification about its file was examined by a request (a second request queued behind, schedule hook) is not reloaded)".into(),
+            "the polling-reader race is sampled (about one case in eight: 40..300 reloads against two polling watchers and two guard-holding readers, then 200..1500 rewrites against 2..3 concurrent pollers of reloaded_global(): at most one true per rewrite in total; then the late-registration scenario: an asset loaded for the first time after the notification about its file was examined by a request (a second request queued behind, schedule hook) is not reloaded; the same with the notification examined by the idle reloader, proved by the schedule hook)".into(),
+            "'an entry it recorded was notified' is read as: notified after the asset recorded it. A notification that was sent and examined before the asset was first loaded (the late-registration scenario) is not a reason to reload it: the asset already read what the notification was about; the pinned tree never does".into(),
             "in enhance_hot_reloading mode passes cannot be delimited from outside: the exact once-per-rewrite count is checked in hot_reload() mode only".into(),
         ]
     }
